@@ -117,11 +117,29 @@ class Check(PropertyCheck):
         return scenario.meta.get("accepted", 0) >= 3 and scenario.meta.get("queries", 0) >= 6
 
     def oracle(self, impl, scenario, index, line, out, ctx):
+        # the reference is recomputed from the instance and the DISPATCH HISTORY (accepted requests since the last
+        # reset, taken from the events alone): forced start times, per-machine lists — never from the dispatcher's objects
+        if line.startswith("inst") or line == "reset" or line == "new":
+            ctx["hist"] = []
+            return []
+        if line.startswith("disp ") and out.startswith("ok"):
+            _, j, p, m = line.split()
+            op = impl.instance.jobs[int(j)][int(p)]
+            ctx.setdefault("hist", []).append((op, op.machines[0] if m == "none" else int(m)))
+            return []
         if not line.startswith("q "):
             return []
         res = []
-        d = impl.dispatcher
-        v = oracles.View(impl.instance, d.schedule.schedule)
+        from types import SimpleNamespace
+        lists = [[] for _ in range(impl.instance.num_machines)]
+        job_end = {}
+        for op, m in ctx.get("hist", []):
+            st = max(lists[m][-1].end_time if lists[m] else 0, job_end.get(op.job_id, 0))
+            x = SimpleNamespace(operation=op, start_time=st, end_time=st + op.duration, machine_id=m, job_id=op.job_id,
+                                position_in_job=op.position_in_job)
+            lists[m].append(x)
+            job_end[op.job_id] = x.end_time
+        v = oracles.View(impl.instance, lists)
         ft = impl.filter_tokens
         ts = line.split()
         name, args = ts[1], ts[2:]
